@@ -16,27 +16,30 @@ def Tr.quiet : Tr → Bool
 
 /-- `c'` differs from `c` by helper effects only: same registrations, same force-quit flag, the trace extended by quiet events -/
 structure Keep (c c' : Cfg) : Prop where
-  handlers : ∀ x ∈ c.L.handlers, x ∈ c'.L.handlers
+  handlers : c.L.handlers <+: c'.L.handlers
   fq : c'.L.forceQuit = c.L.forceQuit
+  tickets : c'.L.tickets = c.L.tickets
   tr : ∃ new, c'.tr = new ++ c.tr ∧ ∀ t ∈ new, t.quiet = true
 
-theorem Keep.refl (c : Cfg) : Keep c c := ⟨fun _ h => h, rfl, [], rfl, by simp⟩
+theorem Keep.refl (c : Cfg) : Keep c c := ⟨List.prefix_refl _, rfl, rfl, [], rfl, by simp⟩
 
 theorem Keep.trans {a b c : Cfg} (h1 : Keep a b) (h2 : Keep b c) : Keep a c := by
   obtain ⟨n1, e1, q1⟩ := h1.tr
   obtain ⟨n2, e2, q2⟩ := h2.tr
-  refine ⟨fun x hx => h2.handlers x (h1.handlers x hx), h2.fq.trans h1.fq, n2 ++ n1, by simp [e2, e1], ?_⟩
+  refine ⟨h1.handlers.trans h2.handlers, h2.fq.trans h1.fq, h2.tickets.trans h1.tickets, n2 ++ n1, by simp [e2, e1], ?_⟩
   intro t ht
   rcases List.mem_append.1 ht with h | h
   · exact q2 t h
   · exact q1 t h
 
 /-- a configuration that agrees with `c` on handlers, force-quit flag and trace -/
-theorem Keep.of_eq {c c' : Cfg} (h1 : c'.L.handlers = c.L.handlers) (h2 : c'.L.forceQuit = c.L.forceQuit) (h3 : c'.tr = c.tr) :
-    Keep c c' := ⟨fun x hx => h1 ▸ hx, h2, [], by simp [h3], by simp⟩
+theorem Keep.of_eq {c c' : Cfg} (h1 : c'.L.handlers = c.L.handlers) (h2 : c'.L.forceQuit = c.L.forceQuit) (h3 : c'.tr = c.tr)
+    (h4 : c'.L.tickets = c.L.tickets := by rfl) :
+    Keep c c' := ⟨by rw [h1]; exact List.prefix_refl _, h2, h4, [], by simp [h3], by simp⟩
 
 theorem Keep.cons {c c' : Cfg} (t : Tr) (h1 : c'.L.handlers = c.L.handlers) (h2 : c'.L.forceQuit = c.L.forceQuit)
-    (h3 : c'.tr = t :: c.tr) (hq : t.quiet = true) : Keep c c' := ⟨fun x hx => h1 ▸ hx, h2, [t], by simp [h3], by simpa using hq⟩
+    (h3 : c'.tr = t :: c.tr) (hq : t.quiet = true)
+    (h4 : c'.L.tickets = c.L.tickets := by rfl) : Keep c c' := ⟨by rw [h1]; exact List.prefix_refl _, h2, h4, [t], by simp [h3], by simpa using hq⟩
 
 @[simp] theorem setCtx_handlers (c : Cfg) (q : Nat) (f : Ctx → Ctx) : (c.setCtx q f).L.handlers = c.L.handlers := rfl
 @[simp] theorem setCtx_fq (c : Cfg) (q : Nat) (f : Ctx → Ctx) : (c.setCtx q f).L.forceQuit = c.L.forceQuit := rfl
@@ -87,7 +90,7 @@ theorem enq?_keep {c c' : Cfg} {s : Sig} (h : c.enq? s = some c') : Keep c c' :=
   · split at h
     · cases h
     · cases h
-      exact ⟨fun _ h => h, rfl, [_, _], rfl, by simp [Tr.quiet]⟩
+      exact ⟨List.prefix_refl _, rfl, rfl, [_, _], rfl, by simp [Tr.quiet]⟩
 
 /-- under force-quit `enqueue_signal` drops the signal -/
 theorem enq?_fq (c : Cfg) (s : Sig) (hf : c.L.forceQuit = true) : c.enq? s = some (c.trace (.dropped s)) := by
